@@ -136,3 +136,31 @@ Proof.
   apply (f_equal snd) in HF. cbn [fst snd] in *. unfold rs_finish at 1 in HF. cbn [snd mkrs rs_prob] in HF.
   unfold whole, A, B. split; lia.
 Qed.
+
+(* "revealing context incrementally ... accumulates exactly the difference between the whole and its parts", right-hand side:
+   RevealAfter called in any number of instalments -- the left pointers of the following fragment handed over c1, then c2, ...
+   at a time, `seen` being the previous cut, then the closing call with reveal.full once that fragment's left state is known to
+   be complete (the protocol of CheckAdjustment in lm/partial_test.cc, with arbitrary cut points) -- accumulates the score of
+   the concatenation minus the scores of the two fragments.  Every intermediate (left, right) is the loop state of the
+   one-shot call (C08_reveal_after_instalments_one_call); the bookkeeping that derives left.full from counts never disagrees
+   with the loop because an extension that would reach length N is always independent of further context. *)
+From Kenlm Require Import LM.RevealProofs.
+Theorem C08_reveal_after_instalments_one_call : forall n T dr, (2 <= n)%nat ->
+  forall cuts c l r P seen, J l r seen -> chain n 0 P -> increasing seen (c :: cuts) (length P) ->
+  ra_seq n T dr l r P seen (c :: cuts) = ra n T dr l r (skipn seen (firstn (last cuts c) P)).
+Proof. intros n T dr Hn. exact (ra_seq_one_shot n Hn T dr). Qed.
+
+Theorem C08_reveal_after_incremental : forall n T M dr, (2 <= n)%nat -> TInv n T M ->
+  (dr = false -> forall k e, T k = Some e -> e_rest e = e_prob e) ->
+  (forall k e, T k = Some e -> e_ext e = true -> (2 <= length k)%nat -> exists x, T (x :: k) <> None) ->
+  forall us ws c cuts, Forall (known T) us -> Forall (known T) ws ->
+  let A := rs_finish n (flat n T rs_init us) in
+  let B := rs_finish n (flat n T rs_init ws) in
+  let P := l_ptrs (c_left (fst B)) in
+  increasing 0 (c :: cuts) (length P) -> last cuts c = length P ->
+  let '(a1, l1, r1) := ra_seq n T dr (c_left (fst A)) (c_right (fst A)) P 0 (c :: cuts) in
+  let '(a2, l2, r2) := if l_full (c_left (fst B))
+                       then reveal_after n T dr l1 r1 {| l_ptrs := P; l_full := true |} (length P)
+                       else (0, l1, r1) in
+  a1 + a2 = snd (rs_finish n (flat n T rs_init (us ++ ws))) - snd A - snd B.
+Proof. intros n T M dr Hn I Hr Hx. exact (reveal_after_incremental n Hn T M I dr Hr Hx). Qed.
